@@ -35,7 +35,7 @@ MANIFEST = {
             "the failure happens after part of the new data was already written.",
     "note": "Trusted: the pass-through event counter (vf/faultfs.py) for the non-triviality rule; frames_eq for before/after comparison.",
 }
-BUDGET = {"quick": {"shards": 8, "examples": 150, "wall": 110},
+BUDGET = {"quick": {"shards": 16, "examples": 75, "wall": 200},
           "thorough": {"shards": 16, "examples": 4000, "wall": 1500}}
 VALUE_KINDS = ["int", "float", "text", "bool", "datetime", "nullable", "bytes"]
 
@@ -185,7 +185,14 @@ def prepare_op(case, df1, path, other):
     if kind == "read_unknown_column":
         return (lambda fs: fastparquet.ParquetFile(path).to_pandas(columns=["__nope__"])), "read"
     if kind == "filter_unknown_column":
-        return (lambda fs: fastparquet.ParquetFile(path).to_pandas(filters=[("__nope__", "==", 1)])), "read"
+        good = [c["name"] for c in vcols if c["kind"] in ("int", "float", "bool")][:1]
+        if case["colpos"] == "first" or not good:
+            flt = [("__nope__", "==", 1)]
+        elif case["colpos"] == "middle":
+            flt = [[("__nope__", "==", 1)], [(good[0], "==", 1)]]
+        else:
+            flt = [[(good[0], "==", 1)], [("__nope__", "==", 1)]]       # the unknown column in a later OR group
+        return (lambda fs: fastparquet.ParquetFile(path).to_pandas(filters=flt)), "read"
     if channel == "fresh_next_to":
         # a fresh write infers its schema from the very data given: only rejections that do not
         # depend on a previously stored schema are rejections there
